@@ -65,7 +65,11 @@ func encode(m *model) []byte {
 			}
 			out.WriteString(eol)
 		}
-		for _, row := range m.Verts {
+		for i, row := range m.Verts {
+			if m.VText != nil {
+				line(m.VText[i]) // wide-row files: explicit (padded) number texts
+				continue
+			}
 			toks := make([]string, len(row))
 			for j, p := range m.VProps {
 				toks[j] = m.text(p.Type, row[j])
@@ -73,6 +77,10 @@ func encode(m *model) []byte {
 			line(toks)
 		}
 		for f, fc := range m.Faces {
+			if m.FText != nil {
+				line(m.FText[f])
+				continue
+			}
 			var toks []string
 			for _, l := range m.Lists {
 				items := m.listItems(l, f, fc)
